@@ -292,8 +292,23 @@ Section Wf.
 
   Definition has_placeholder (l : list term) : bool := existsb (fun x => term_eqb x placeholder) l.
 
-  (* [k1 = true]: also exclude class K1 (an image one of whose own components BEFORE its index is a
-     placeholder: the parser takes the first placeholder of the written list as the index) *)
+  (* The property's well-formedness, clause by clause, plus what the proof of sst_of_desugar forced:
+       names       : name_ok (the property; only "non-empty" is used by the formatter half, the rest is
+                     what the parser half's unamb needs);
+       interval    : value <= usize::MAX -- not a restriction on Rust values (the payload IS a usize),
+                     needed because the model's payload is an unbounded N and the printed decimal must
+                     re-read (read_usize (show_N n) = Some n, Proofs/DecP.v);
+       set payloads: non-empty (property) and duplicate-free up to term_eqb -- the representation
+                     invariant of a HashSet payload (set_ok), true of every Rust value; then
+                     mk_set l = l, i.e. the re-parsed set has the same elements in the same model order;
+       vectors     : non-empty (property; the formatter prints `(kw sep sp)` for an empty one, which is
+                     not the text of any compound);
+       images      : index <= number of components (otherwise the formatter's ImageIterator emits no
+                     placeholder at all); the component list itself may be empty (`(/, _)`);
+                     [k1 = true] also excludes the inherent ambiguity class K1: one of the image's own
+                     components BEFORE its index is a placeholder -- the parser takes the FIRST
+                     placeholder of the written list as the index (K1_witness, Proofs/EnumFmtP.v);
+       negation / differences / statements: arity is fixed by the value type. *)
   Fixpoint wf_term_gen (k1 : bool) (t : term) : bool :=
     match t with
     | TName _ n => name_ok n
